@@ -27,6 +27,8 @@ def classify(argv):
             if "--list" in argv or "-l" in argv:
                 return ("git", "query", "ls_tags_branch" if "--merged" in argv else "ls_tags")
             return ("git", "effect", "tag")
+        if sub == "for-each-ref" and any("refs/tags" in a for a in argv):
+            return ("git", "query", "ls_tags_branch" if any(a.startswith("--merged") for a in argv) else "ls_tags")
         if sub == "status":
             return ("git", "query", "status")
         if sub == "add":
